@@ -6,6 +6,7 @@
   constrained by `HsReg`. Helper lemmas: Mtv/Lemmas/{C06Num,C07Decoder,C07Stages}.lean.
 -/
 import Mtv.Lemmas.C07Stages
+import Mtv.Handshake.Conn
 import Mtv.Gen.Registry
 import Mtv.Gen.HsChecks
 namespace Mtv.Handshake
@@ -40,6 +41,17 @@ theorem iface_sets (v : Val) :
     isSetClientDHAnswer v = modelSetClientDHAnswer.any (fun id => objId v == some id) := by
   simp [isServerDHParams, isSetClientDHAnswer, modelServerDHParams, modelSetClientDHAnswer, List.any,
     Bool.or_assoc]
+
+/-- **`CreateConnection` and the reading routine of the working tree are the model's** (`Mtv.Handshake.Conn`):
+the skeleton of `(*MTProto).CreateConnection` extracted from mtproto.go by go/ast on this run - the reading
+routine is started before the key exchange, and when `makeAuthKey` fails `m.stopRoutines()` runs before the
+error is returned -, the cases of the reading routine's `switch err` (EOF → `Reconnect` only if `keyAfterHangup`)
+and the skeleton of `keyAfterHangup` (true only once `m.encrypted` is set) equal the sequences
+`createConnection` / `connStep` implement. Removing the stop from the error path, or starting another routine
+before the exchange, changes the extracted text and breaks this obligation. -/
+theorem conn_matches_source :
+    Mtv.Gen.hsCreateConn = modelCreateConn ∧ Mtv.Gen.hsReaderCases = modelReaderCases ∧
+    Mtv.Gen.hsKeyAfterHangup = modelKeyAfterHangup := by decide +kernel
 
 /-! ## the property -/
 
@@ -142,6 +154,108 @@ theorem hs_no_encrypted_before_success (c : Cfg) (replies : List Bytes) :
       · rw [hq.1] at h; cases h
       · exact (hq.2.2 _ h).2.2 rfl
       · exact hq.2.1 h
+
+/-! ## after the abort: nothing, whatever the network does -/
+
+/-- a stopped object (no reading routine) answers no network event: state and action list stay as they are -/
+theorem conn_stopped_is_final (rep : Bool) (s : ConnState) (acts : List ConnAction)
+    (h : s.reading = false) (evs : List NetEvent) : connFeed rep (s, acts) evs = (s, acts) := by
+  induction evs with
+  | nil => rfl
+  | cons e es ih =>
+    have hstep : connStep rep s e = (s, []) := by cases e <;> simp [connStep, h]
+    simp [connFeed, hstep, ih]
+
+/-- **The reading routine never dials, and never starts a key exchange, for an object without a key** - in
+whatever state the server's EOF (or any other event) finds it: while the exchange is still waiting for a reply,
+after `makeAuthKey` has failed but before `CreateConnection` has stopped the routines, afterwards. (The
+interleaving "the server hangs up in the same breath as it lies" is this statement for a state with
+`reading = true`.) The only actions such an event can cause are those of the exchange the APPLICATION started
+receiving its next reply. -/
+theorem reader_without_key_never_dials (s : ConnState) (e : NetEvent) (h : s.hs.encrypted = false) :
+    ConnAction.dial ∉ (connStep true s e).2 ∧
+    (∀ next, (connStep true s e).2 ≠ ConnAction.dial :: (hsStart next).2.map ConnAction.hs) := by
+  have heof : ∀ dialOk nx, ConnAction.dial ∉ (onEof true s dialOk nx).2 := by
+    intro dialOk nx
+    simp only [onEof, h, Bool.not_false, Bool.and_self, if_true]
+    split <;> simp
+  have hno : ConnAction.dial ∉ (connStep true s e).2 := by
+    cases e with
+    | frame body =>
+      simp only [connStep]
+      split
+      · simp
+      · split <;> simp
+    | eof dialOk nx =>
+      simp only [connStep]
+      split
+      · simp
+      · exact heof dialOk nx
+    | readError dialOk nx =>
+      simp only [connStep]
+      split
+      · simp
+      · simpa using heof dialOk nx
+  exact ⟨hno, fun next heq => hno (by rw [heq]; exact List.mem_cons_self)⟩
+
+/-- **An exchange that ended with an error leaves nothing running.** For every configuration and every list
+of replies on which `makeAuthKey` returns an error: `CreateConnection` (as repaired) returns with the reading
+and keep-alive routines stopped, and EVERY sequence of later network events - frames, the server closing the
+connection with a server that accepts or refuses the next dial, read errors - leaves state and action list
+exactly as they were at the return. -/
+theorem hs_abort_stops_everything (c : Cfg) (replies : List Bytes) (k : String)
+    (h : (hsRun c replies).1.result = some (.err k)) (evs : List NetEvent) :
+    connFeed true (createConnection true c replies) evs = createConnection true c replies ∧
+    (createConnection true c replies).1.reading = false ∧
+    (createConnection true c replies).1.pinging = false := by
+  have hr : (createConnection true c replies).1.reading = false := by
+    simp [createConnection, afterExchange, h]
+  have hp : (createConnection true c replies).1.pinging = false := by
+    simp [createConnection, afterExchange, h]
+  exact ⟨conn_stopped_is_final true _ _ hr evs, hr, hp⟩
+
+/-- **Nothing after the abort** (the clause "no session is stored and no encrypted request is EVER sent").
+For every sane client configuration, every three reply bodies that do NOT satisfy `AllChecks` (whatever
+follows them) and EVERY sequence of network events after `CreateConnection` has returned: the action list of
+the object's whole life is the one dial of the application's `CreateConnection` followed by the actions of the
+abandoned exchange - final: no later dial, frame or store - and among those there is no session store and no
+encrypted send. -/
+theorem hs_nothing_after_abort (c : Cfg) (hs : ClientSane c) (r1 r2 r3 : Bytes) (rest : List Bytes)
+    (h : ¬ AllChecks c r1 r2 r3) (evs : List NetEvent) :
+    (connFeed true (createConnection true c (r1 :: r2 :: r3 :: rest)) evs).2 =
+        ConnAction.dial :: (hsRun c (r1 :: r2 :: r3 :: rest)).2.map ConnAction.hs ∧
+    (connFeed true (createConnection true c (r1 :: r2 :: r3 :: rest)) evs).1.reading = false ∧
+    (∀ a ∈ (hsRun c (r1 :: r2 :: r3 :: rest)).2, a.isSave = false ∧ a.isSendEnc = false) := by
+  obtain ⟨k, hk⟩ := hs_abort_is_error c hs r1 r2 r3 rest h
+  obtain ⟨hfin, hr, _⟩ := hs_abort_stops_everything c (r1 :: r2 :: r3 :: rest) k hk evs
+  refine ⟨by rw [hfin]; rfl, by rw [hfin]; exact hr, fun a ha => ⟨?_, (hs_no_encrypted_before_success c _).1 a ha⟩⟩
+  cases hsv : a.isSave with
+  | false => rfl
+  | true =>
+    obtain ⟨q1, q2, q3, qs, heq, hall⟩ := hs_save_only_if_all_checks c _ ⟨a, ha, hsv⟩
+    cases heq
+    exact absurd hall h
+
+/-- the hypotheses of `hs_abort_stops_everything` are met by the replies of the last non-vacuity example
+below (any `ClientSane` configuration with replies failing `AllChecks`, by `hs_abort_is_error`); here, the
+event sequence of the defect's witness: the server closes the connection and accepts the next dial -/
+example (c next : Cfg) (hs : ClientSane c) (r1 r2 r3 : Bytes) (h : ¬ AllChecks c r1 r2 r3) :
+    (connFeed true (createConnection true c [r1, r2, r3]) [.eof true next, .frame [], .readError true next]).2 =
+      ConnAction.dial :: (hsRun c [r1, r2, r3]).2.map ConnAction.hs :=
+  (hs_nothing_after_abort c hs r1 r2 r3 [] h _).1
+
+/-- **The defect the repair removes** (witness on the machine with `repaired = false`, the code before
+pending_fixes/C07-failed-exchange-stops-routines): after an exchange that ended with an error, the server's
+EOF makes the object dial again on its own - and, holding no key, start a new exchange with fresh draws. -/
+theorem orphan_reconnects_when_unrepaired (c next : Cfg) (replies : List Bytes) (k : String)
+    (h : (hsRun c replies).1.result = some (.err k)) :
+    ∃ tail, (connFeed false (createConnection false c replies) [.eof true next]).2 =
+      (createConnection false c replies).2 ++ ConnAction.dial :: tail := by
+  have hr : (createConnection false c replies).1.reading = true := by
+    simp [createConnection, afterExchange, h]
+  cases henc : (createConnection false c replies).1.hs.encrypted with
+  | true => exact ⟨[], by simp [connFeed, connStep, onEof, hr, henc]⟩
+  | false => exact ⟨(hsStart next).2.map .hs, by simp [connFeed, connStep, onEof, hr, henc]⟩
 
 /-! ## non-vacuity of `ClientSane` and of the abort clause -/
 
